@@ -43,6 +43,37 @@ def replay_tymer(h, q):
     return out
 
 
+def tymer_relation(h, q):
+    # q is a divisor here: values are v / q (decimal-looking floats such as 0.6, 1.1, 1.7), not v * (1/q)
+    """non-dyadic time scale: the exact values are not representable, but expired must still be exactly (remaining <= 0)
+    (IEEE subtraction has the sign of the exact difference);
+    -> problem text or None"""
+    from hio.base import tyming
+    new = h[0]
+    start = None if new["b"] == NONE else new["b"] / q
+    tymist = tyming.Tymist(tyme=new["obs"]["tyme"] / q)
+    tymer = tyming.Tymer(tymth=tymist.tymen(), duration=new["a"] / q, start=start)
+    for k, e in enumerate(h):
+        if k:
+            a = None if e["a"] == NONE else e["a"] / q
+            b = None if e["b"] == NONE else e["b"] / q
+            if e["op"] == "settyme":
+                tymist.tyme = a
+            elif e["op"] == "tick":
+                tymist.tick(tock=a)
+            elif e["op"] == "start":
+                tymer.start(duration=a, start=b)
+            elif e["op"] == "restart":
+                tymer.restart(duration=a)
+        rem, exp = tymer.remaining, bool(tymer.expired)
+        # (a shadow computation of the stop tyme would differ from the code's own by an ulp: only the relation between
+        # the timer's own reports is exact in floating point)
+        if exp != (rem <= 0):
+            return "after op %d (%s) at scale %r: tyme %r, remaining %r but expired is %s" % (
+                k, {x: e[x] for x in ("op", "a", "b")}, q, tymist.tyme, rem, exp)
+    return None
+
+
 class FT:
     def __init__(self):
         self.w = 0.0
@@ -51,7 +82,7 @@ class FT:
         return self.w
 
 
-def replay_mono(h, q):
+def replay_mono(h, q, expired_first=False):
     from hio.help import timing
     ft = FT()
     old = timing.time
@@ -65,7 +96,11 @@ def replay_mono(h, q):
             a = None if e["a"] == NONE else e["a"] * q
             if e["op"] == "read":
                 ft.w = e["w"] * q
-                out.append({"elapsed": qn(t.elapsed, q), "remaining": qn(t.remaining, q), "expired": bool(t.expired)})
+                if expired_first:     # the order of the property reads must not matter (each applies the clock compensation)
+                    x = bool(t.expired)
+                    out.append({"elapsed": qn(t.elapsed, q), "remaining": qn(t.remaining, q), "expired": x})
+                else:
+                    out.append({"elapsed": qn(t.elapsed, q), "remaining": qn(t.remaining, q), "expired": bool(t.expired)})
             elif e["op"] == "start":
                 ft.w = e["w"] * q
                 t.start(duration=a)
@@ -127,6 +162,9 @@ def judge_mono(h, real):
 
 def replay_case(ctx, case):
     h, qq = case["ops"], case.get("q", 0.25)
+    if case.get("nondyadic"):
+        bad = tymer_relation(h, qq)
+        return [bad] if bad else []
     if "tyme" in (h[0].get("obs") or {}) if isinstance(h[0].get("obs"), dict) else False:
         real = replay_tymer(h, qq)
         return [] if real == [e["obs"] for e in h] else ["Tymer reports differ from the exact values: %s" % real]
@@ -169,7 +207,7 @@ def run(ctx):
             qq = SCALES[(i + ctx.seed) % 4]
             try:
                 with core.watchdog():
-                    real = fn(h, qq)
+                    real = fn(h, qq, i % 2 == 1) if fn is replay_mono else fn(h, qq)
             except (Exception, core.Hang) as ex:
                 real = "raised %s: %s" % (type(ex).__name__, ex)
             exp = [e["obs"] for e in h]
@@ -186,9 +224,21 @@ def run(ctx):
                 ctx.violation("%s: report after op %d (%s) differs: code %s model %s" %
                               (mod[:-3], k, {x: h[k][x] for x in ("op", "a")}, real[k] if isinstance(real, list) and k < len(real) else real, exp[k]),
                               {"ops": h, "real": real, "q": qq})
+    # non-dyadic scales: relational oracle only (no exact values exist), all Tymer behaviours again
+    g = ctx.tlc("time", "TymerGen", core.cfg_text(constants={"Vals": set(range(0, 21)), "Durs": {0, 1, 2, 4, 7, 11, 13}, "Ticks": {1, 2, 3}, "MaxOps": 8},
+                                                  constraints=["Dump"]), workers=1, simulate="num=%d" % max(100, n // 20), depth=10)
+    for i, h in enumerate(g.tagged_json("BH")):
+        for qq in (10.0, 3.0, 7.0, 0.3):
+            ctx.case(("tymer-nondyadic", str(h), qq))
+            try:
+                bad = tymer_relation(h, qq)
+            except Exception as ex:
+                bad = "raised %s: %s" % (type(ex).__name__, ex)
+            if bad:
+                ctx.violation("Tymer: %s" % bad, {"ops": h, "q": qq, "nondyadic": True})
     if divergences:
         ctx.note("%d MonoTimer runs differ from the model after a backward step without breaking C08 (first: %s)" %
                  (len(divergences), divergences[0]))
     return ctx.finish(extra={"model_divergences_not_violations": len(divergences)}, rule="op sequences over small integer tyme/clock values x 4 exact time scales; distinct by op sequence",
-                      assumptions=["dyadic time scales only: one-ulp float rounding effects are numeric accuracy, outside the model",
+                      assumptions=["exact values are compared at dyadic time scales; at decimal and other non-dyadic scales (v/10, v/3, v/7, v/0.3) only the exact relation expired == (remaining <= 0) between the Tymer's own reports is demanded",
                                    "each group of reads (elapsed, remaining, expired) is taken with the clock held still"])
